@@ -4,10 +4,18 @@ Part 1: translator (AST walk of the tagging pipelines -> coq/Gen/GenStatus.v, te
 Part 2: the check (fault enumeration on the real pipelines vs the model).
 
 What is extracted (fail closed: anything outside the recognised subset raises Untranslatable):
-  * every call, in evaluation order, of run_multiome_tagging, tag_multiome_single_thread,
-    tag_multiome_multi_processing, sorted_bam_file (code before / after the yield), sort_and_index,
-    merge_bams and the `with` block of run_tagging_tasks;
-  * try/except (which exceptions are caught, whether the handler re-raises), for loops, if/else;
+  * every call, in evaluation order, of run_multiome_tagging (including the --cluster branch),
+    tag_multiome_single_thread, tag_multiome_multi_processing, sorted_bam_file (code before / after the
+    yield), sort_and_index, merge_bams, the whole body of run_tagging_tasks (temp BAM naming, the task
+    loop with its TimeoutError handler, sort + index on leaving the with block, removal of an empty
+    temp BAM, both return statements) and the body of run_tagging_task (inlined where the worker calls it);
+  * try/except (which exceptions are caught, whether the handler re-raises), for loops with break /
+    continue, if/else, early return (worker only), exit();
+  * the data the worker's control flow depends on: the molecule counter of a task, the accumulator of
+    the worker and the test on it that decides between `return path` and `remove; return None`; in the
+    parent the test `bam is not None` and the append to the merge list (role checks: fail closed when the
+    counter / accumulator / merge list cannot be identified);
+  * one result of the pool (next(job_generator)) is a Spawn of the worker program on a world of its own;
   * the effect of a call on the abstract world is decided from the callee name AND from whether it
     receives the output path (or <output>.bai): see classify().  A call that does not receive the
     output path is a step without effect on the world (it can still fail).  A call of an unknown
@@ -52,6 +60,18 @@ def dump(e):
     return ast.dump(e, annotate_fields=False)
 
 
+def walk_own(node):
+    """ast.walk without entering nested function / class definitions and lambdas"""
+    todo = list(ast.iter_child_nodes(node))
+    yield node
+    while todo:
+        n = todo.pop()
+        if isinstance(n, (ast.FunctionDef, ast.AsyncFunctionDef, ast.ClassDef, ast.Lambda)):
+            continue
+        yield n
+        todo.extend(ast.iter_child_nodes(n))
+
+
 class Ctx:
     """per function translation context"""
     def __init__(self, gen, fname, fdef, out_exprs, relfile):
@@ -66,6 +86,18 @@ class Ctx:
         self.alias = {}         # loop variable of an unrolled literal loop -> expression
         self.handles = set()    # names bound by `with sorted_bam_file(out) as NAME`
         self.unit_iters = set()  # names assigned from an iterator over run_tagging_tasks results
+        self.ret_ok = False     # early `return <path>, meta` / `return None, meta` allowed (run_tagging_tasks)
+        self.no_flow = 0        # > 0: inside a `with sorted_bam_file(out)` body: leaving it by return is refused
+        self.counter = None     # name of the per-task molecule counter (run_tagging_task)
+        self.acc = None         # name of the worker's accumulator, (stat var, key) it is fed from (run_tagging_tasks)
+        self.acc_from = None
+        self.report_list = None  # name of the list the TimeoutError handler appends the task to
+        self.loop_var = None
+        self.got_var = None     # first target of the loop over worker results (`bam`)
+        self.keep_list = None   # the list handed to merge_bams
+        self.allow_out_assign = False
+        self.acc_seen = False
+        self.meta_var = None
         self.assigned = {}      # name -> list of value nodes (whole function)
         for n in ast.walk(fdef):
             if isinstance(n, ast.Assign) and len(n.targets) == 1 and isinstance(n.targets[0], ast.Name):
@@ -114,6 +146,7 @@ class Gen:
                 if isinstance(n, ast.FunctionDef):
                     self.funcs[(rel, n.name)] = n
         self.built = {}
+        self.special = {}     # choice ids the theorems name
 
     # ---------------------------------------------------------------- ids
     def label(self, fname, callee):
@@ -171,6 +204,9 @@ class Gen:
         args = list(call.args) + [k.value for k in call.keywords]
         touches = [a for a in args if ctx.mentions_out(a)]
         st = lambda eff, nm=None: ['Step %d %s' % (self.label(ctx.fname, nm or name or 'call'), eff)]
+        if name is None and isinstance(call.func, ast.Attribute) and isinstance(call.func.value, (ast.Constant, ast.JoinedStr)) \
+                and call.func.attr in PURE_METHODS:
+            return []           # ' '.join(...), 'x'.format(...): string arithmetic
         if name is None:
             # call of a call result / subscript: no name; refuse only when it receives the output path
             if touches:
@@ -179,6 +215,19 @@ class Gen:
         base = name.split('.')[-1]
         if name in PURE:
             return []
+        if name in ('exit', 'sys.exit', 'quit', 'os._exit'):
+            return ['Raise %d KBase' % self.label(ctx.fname, name)]      # SystemExit
+        if base == 'append' and isinstance(call.func, ast.Attribute) and isinstance(call.func.value, ast.Name) \
+                and len(call.args) == 1 and not call.keywords and isinstance(call.args[0], ast.Name):
+            recv, arg = call.func.value.id, call.args[0].id
+            if ctx.report_list is not None and recv == ctx.report_list:
+                if arg != ctx.loop_var:
+                    self.refuse(ctx, call, 'something other than the current task is appended to the reported tasks')
+                return st('EReport', '%s.append' % recv)
+            if ctx.got_var is not None and arg == ctx.got_var:
+                if recv != ctx.keep_list:
+                    self.refuse(ctx, call, 'the returned temp BAM is appended to a list that is not the merge list')
+                return st('EKeep', '%s.append' % recv)
         # method of the output path string itself (args.o.endswith ...)
         if isinstance(call.func, ast.Attribute) and ctx.mentions_out(call.func.value):
             if base in PURE_METHODS:
@@ -248,7 +297,14 @@ class Gen:
                 return st('EUnit', 'write_pysam')
             return st('ENop', 'write_pysam')
         if name == 'run_tagging_task' and any(isinstance(a, ast.Name) and a.id in ctx.handles for a in args):
-            return st('EUnit')
+            fdef = self.funcs.get((TG, 'run_tagging_task'))
+            if fdef is None:
+                self.refuse(ctx, call, 'definition of run_tagging_task not found')
+            bound = self.bind(fdef, call, 'output')
+            if not (isinstance(bound, ast.Name) and bound.id in ctx.handles):
+                self.refuse(ctx, call, 'run_tagging_task does not receive the output handle as `output`')
+            self.build_task()
+            return ['run_tagging_task_body']
         if name in INLINE:
             rel, param = INLINE[name]
             fdef = self.funcs.get((rel, name))
@@ -297,9 +353,78 @@ class Gen:
         return out
 
     def finish_def(self, name, term):
-        if 'BRKMARK' in term:
-            raise Untranslatable('break/continue not enclosed by a loop in %s' % name)
         self.defs.append((name, term))
+
+    def data_stmt(self, ctx, s):
+        """assignments to the tracked data (molecule counter of a task, accumulator of the worker) -> a step
+        with the corresponding effect; None when s is not one of them"""
+        if isinstance(s, ast.Assign) and len(s.targets) == 1 and isinstance(s.targets[0], ast.Name):
+            t = s.targets[0].id
+            if t == ctx.counter:
+                if isinstance(s.value, ast.Constant) and s.value.value == 0:
+                    return ['Step %d ECntReset' % self.label(ctx.fname, '%s=0' % t)]
+                self.refuse(ctx, s, 'the molecule counter is assigned something other than 0')
+            if t == ctx.acc:
+                if isinstance(s.value, ast.Constant) and s.value.value == 0 and not ctx.acc_seen:
+                    ctx.acc_seen = True
+                    return []          # the initial value: tm = false in the worker's initial world
+                self.refuse(ctx, s, 'the accumulator of written molecules is re-assigned')
+        if isinstance(s, ast.AugAssign) and isinstance(s.target, ast.Name):
+            t = s.target.id
+            if t == ctx.counter:
+                if isinstance(s.op, ast.Add) and isinstance(s.value, ast.Constant) and s.value.value == 1:
+                    return ['Step %d ECntInc' % self.label(ctx.fname, '%s+=1' % t)]
+                self.refuse(ctx, s, 'the molecule counter is changed by something other than += 1')
+            if t == ctx.acc:
+                v = s.value
+                ok = isinstance(s.op, ast.Add) and ctx.acc_from is not None
+                if ok:
+                    stat, key = ctx.acc_from
+                    get = (isinstance(v, ast.Call) and isinstance(v.func, ast.Attribute) and v.func.attr == 'get'
+                           and isinstance(v.func.value, ast.Name) and v.func.value.id == stat and len(v.args) in (1, 2)
+                           and isinstance(v.args[0], ast.Constant) and v.args[0].value == key
+                           and (len(v.args) == 1 or (isinstance(v.args[1], ast.Constant) and v.args[1].value == 0)))
+                    sub = (isinstance(v, ast.Subscript) and isinstance(v.value, ast.Name) and v.value.id == stat
+                           and isinstance(v.slice, ast.Constant) and v.slice.value == key)
+                    ok = get or sub
+                if not ok:
+                    self.refuse(ctx, s, 'the accumulator is not fed from the molecule count the task returns')
+                return ['Step %d EAccum' % self.label(ctx.fname, '%s+=' % t)]
+        return None
+
+    def guard_of(self, ctx, test):
+        """a test on tracked data -> (guard, negated) or None"""
+        neg = False
+        if isinstance(test, ast.UnaryOp) and isinstance(test.op, ast.Not):
+            test, neg = test.operand, True
+        if ctx.acc is not None:
+            if isinstance(test, ast.Name) and test.id == ctx.acc:
+                return 'GTotal', neg
+            if isinstance(test, ast.Compare) and len(test.ops) == 1:
+                l, op, r = test.left, test.ops[0], test.comparators[0]
+                isacc = lambda e: isinstance(e, ast.Name) and e.id == ctx.acc
+                num = lambda e, n: isinstance(e, ast.Constant) and type(e.value) is int and e.value == n
+                if isacc(l) and ((isinstance(op, ast.Gt) and num(r, 0)) or (isinstance(op, ast.GtE) and num(r, 1))
+                                 or (isinstance(op, ast.NotEq) and num(r, 0))):
+                    return 'GTotal', neg
+                if isacc(r) and ((isinstance(op, ast.Lt) and num(l, 0)) or (isinstance(op, ast.LtE) and num(l, 1))):
+                    return 'GTotal', neg
+                if isacc(l) and ((isinstance(op, ast.Eq) and num(r, 0)) or (isinstance(op, ast.LtE) and num(r, 0))
+                                 or (isinstance(op, ast.Lt) and num(r, 1))):
+                    return 'GTotal', not neg
+            if any(isinstance(n, ast.Name) and n.id == ctx.acc for n in ast.walk(test)):
+                self.refuse(ctx, test, 'a test on the accumulator of written molecules that is not `> 0`')
+        if ctx.got_var is not None:
+            if isinstance(test, ast.Compare) and len(test.ops) == 1 and isinstance(test.left, ast.Name) \
+                    and test.left.id == ctx.got_var and isinstance(test.comparators[0], ast.Constant) \
+                    and test.comparators[0].value is None:
+                if isinstance(test.ops[0], ast.IsNot):
+                    return 'GGot', neg
+                if isinstance(test.ops[0], ast.Is):
+                    return 'GGot', not neg
+            if any(isinstance(n, ast.Name) and n.id == ctx.got_var for n in ast.walk(test)):
+                self.refuse(ctx, test, 'a test on the returned temp BAM path that is not `is (not) None`')
+        return None
 
     def seq(self, terms):
         if not terms:
@@ -314,10 +439,13 @@ class Gen:
         if isinstance(s, ast.Expr) and isinstance(s.value, ast.Constant):
             return []   # docstring / string statement
         if isinstance(s, (ast.Expr, ast.Assign, ast.AugAssign, ast.AnnAssign, ast.Assert, ast.Delete)):
+            data = self.data_stmt(ctx, s)
+            if data is not None:
+                return data
             if isinstance(s, ast.Assign):
                 for t in s.targets:
                     for n in ast.walk(t):
-                        if isinstance(n, ast.expr) and (dump(n) in ctx.out or dump(n) in ctx.idx):
+                        if isinstance(n, ast.expr) and (dump(n) in ctx.out or dump(n) in ctx.idx) and not ctx.allow_out_assign:
                             self.refuse(ctx, s, 'the output path is re-assigned')
                         if isinstance(n, ast.Name) and n.id in ctx.handles:
                             self.refuse(ctx, s, 'the output handle is re-assigned')
@@ -330,6 +458,18 @@ class Gen:
                             return []
             return self.expr_steps(ctx, s)
         if isinstance(s, ast.Return):
+            if ctx.ret_ok:
+                if ctx.no_flow:
+                    self.refuse(ctx, s, 'return inside the with sorted_bam_file block (its exit code would run)')
+                v = s.value
+                if not (isinstance(v, ast.Tuple) and len(v.elts) == 2 and isinstance(v.elts[1], ast.Name)
+                        and v.elts[1].id == ctx.meta_var):
+                    self.refuse(ctx, s, 'return value is not (<path or None>, meta)')
+                if ctx.is_out(v.elts[0]):
+                    return ['Return VPath']
+                if isinstance(v.elts[0], ast.Constant) and v.elts[0].value is None:
+                    return ['Return VNone']
+                self.refuse(ctx, s, 'first component of the return value is neither the temp BAM path nor None')
             if s is not ctx.fdef.body[-1]:
                 self.refuse(ctx, s, 'return before the end of the function')
             return self.expr_steps(ctx, s) if s.value is not None else []
@@ -350,8 +490,8 @@ class Gen:
             return self.try_stmt(ctx, s, in_loop)
         if isinstance(s, (ast.Break, ast.Continue)):
             if not in_loop:
-                self.refuse(ctx, s, 'break/continue outside a loop')
-            return ['BRKMARK']     # accepted by for_stmt only in a loop without any effect on the world
+                self.refuse(ctx, s, 'break/continue outside a translated loop')
+            return ['Break' if isinstance(s, ast.Break) else 'Continue']
         self.refuse(ctx, s, 'statement kind %s not supported' % type(s).__name__)
 
     RAISE_KIND = {'ValueError': 'KValue', 'RuntimeError': 'KRuntime', 'NotImplementedError': 'KRuntime',
@@ -395,14 +535,46 @@ class Gen:
             self.notes.append('%s: `%s: break` ignored (assumption: -head not given)' % (ctx.fname, ast.unparse(s.test)))
             return []
         pre = self.expr_steps(ctx, s.test)
-        if ctx.fname == 'run_multiome_tagging' and ast.unparse(s.test) == 'args.cluster':
-            self.notes.append('run_multiome_tagging: the `if args.cluster:` branch (job submission to a scheduler) is not translated')
-            return pre
+        g = self.guard_of(ctx, s.test)
+        if g is not None:
+            a = self.walk(ctx, s.body, in_loop)
+            b = self.walk(ctx, s.orelse, in_loop)
+            if g[1]:
+                a, b = b, a
+            return pre + ['IfW %s (%s) (%s)' % (g[0], self.seq(a), self.seq(b))]
+        cluster = ctx.fname == 'run_multiome_tagging' and ast.unparse(s.test) == 'args.cluster'
+        if cluster:
+            self.cluster_branch(ctx, s)
         a = self.walk(ctx, s.body, in_loop)
         b = self.walk(ctx, s.orelse, in_loop)
         if not a and not b:
             return pre
-        return pre + ['Choice %d (%s) (%s)' % (self.choice_id(ctx.fname, s.test), self.seq(a), self.seq(b))]
+        cid = self.choice_id(ctx.fname, s.test)
+        if cluster:
+            self.special['cluster'] = cid
+            ids = [i for i, n in enumerate(self.choices) if n == 'run_multiome_tagging: args.contig is None' and i < cid]
+            # (choice ids are given after the branches were walked: the nested test has the smaller id)
+            if not ids:
+                raise Untranslatable('the --cluster branch is not guarded by an `args.contig is None` test')
+            self.special['cluster_contig_none'] = ids[-1]
+        return pre + ['Choice %d (%s) (%s)' % (cid, self.seq(a), self.seq(b))]
+
+    def cluster_branch(self, ctx, s):
+        """role checks for `if args.cluster:` (job submission): the only statement is `if args.contig is None:`,
+        it ends with exit(), it never writes the success marker (neither directly nor in a submitted command)"""
+        if len(s.body) != 1 or not isinstance(s.body[0], ast.If) or ast.unparse(s.body[0].test) != 'args.contig is None' \
+                or s.body[0].orelse or s.orelse:
+            self.refuse(ctx, s, 'shape of the --cluster branch')
+        inner = s.body[0]
+        last = inner.body[-1]
+        if not (isinstance(last, ast.Expr) and isinstance(last.value, ast.Call) and dotted(last.value.func) in ('exit', 'sys.exit')):
+            self.refuse(ctx, s, 'the --cluster branch does not end with exit()')
+        for n in ast.walk(inner):
+            if isinstance(n, ast.Constant) and isinstance(n.value, str) and OK_MESSAGE.lower()[:11] in n.value.lower():
+                self.refuse(ctx, s, 'the --cluster branch mentions the success message')
+        self.notes.append('run_multiome_tagging: --cluster branch translated; the submitted jobs (per-contig taggers writing '
+                          'their own status files, the final merge job that writes "All done") run outside this process '
+                          'and are not part of the model')
 
     def for_stmt(self, ctx, s):
         if s.orelse:
@@ -425,21 +597,31 @@ class Gen:
         pre = self.expr_steps(ctx, s.iter)
         hdr = 'ENop'
         names = [n.id for n in ast.walk(s.iter) if isinstance(n, ast.Name)]
-        if any(n in ctx.unit_iters for n in names):
-            hdr = 'EUnit'
-        body_has_steps = True
+        spawn = any(n in ctx.unit_iters for n in names)
         mark = (len(self.labels), dict(self.label_count), len(self.loops), len(self.choices))
         lbl = self.label(ctx.fname, 'next(%s)' % ast.unparse(s.iter)[:40])
         lid = self.loop_id(ctx.fname, s)
-        body = self.walk(ctx, s.body, in_loop=True)
-        btxt = ' '.join(body)
-        if 'BRKMARK' in btxt:
-            # skipping steps that have no effect on the world does not change the reachable worlds
-            import re as _re
-            effectful = hdr != 'ENop' or _re.search(r'EUnit|EWriteOut|EIndex|ERemove|EStatus|_body|_pre|_post|Raise', btxt)
-            if effectful:
-                self.refuse(ctx, s, 'break/continue in a loop that writes records or touches the output')
-            body = [b.replace('BRKMARK', 'Skip') for b in body]
+        first = []
+        if spawn:
+            # one result of the pool / of the lazily evaluated generator: the worker program runs, then the
+            # loop target is bound to what it returned
+            if not (isinstance(s.target, ast.Tuple) and len(s.target.elts) == 2 and all(isinstance(e, ast.Name) for e in s.target.elts)):
+                self.refuse(ctx, s, 'the loop over worker results does not unpack (bam, meta)')
+            if 'worker_full' not in dict(self.defs):
+                self.refuse(ctx, s, 'worker results used before run_tagging_tasks was translated')
+            ctx.got_var = s.target.elts[0].id
+            ctx.keep_list = self.merge_list(ctx)
+            self.check_timeouts_read(ctx, s, s.target.elts[1].id)
+            first = ['Spawn %d worker_full' % self.label(ctx.fname, 'run_tagging_tasks')]
+        saved = ctx.loop_var
+        if isinstance(s.target, ast.Name):
+            ctx.loop_var = s.target.id
+        body = first + self.walk(ctx, s.body, in_loop=True)
+        ctx.loop_var = saved
+        if spawn:
+            if not any('EKeep' in b for b in body):
+                self.refuse(ctx, s, 'the returned temp BAM is never put on the merge list')
+            ctx.got_var = None
         if not body and hdr == 'ENop' and not pre:
             # a loop without any call: no crash point, no effect
             self.labels = self.labels[:mark[0]]
@@ -448,6 +630,48 @@ class Gen:
             self.choices = self.choices[:mark[3]]
             return []
         return pre + ['Loop %d %d %s (%s)' % (lid, lbl, hdr, self.seq(body))]
+
+    def merge_list(self, ctx):
+        """name of the list whose content is handed to merge_bams (role check for EKeep): merge_bams(list(M) | M, out)
+        with M = [<header bam>] + L  or  M = L"""
+        calls = [n for n in ast.walk(ctx.fdef) if isinstance(n, ast.Call) and dotted(n.func) == 'merge_bams']
+        if len(calls) != 1 or not calls[0].args:
+            raise Untranslatable('%s: expected exactly one merge_bams call' % ctx.fname)
+        a = calls[0].args[0]
+        if isinstance(a, ast.Call) and dotted(a.func) == 'list' and len(a.args) == 1:
+            a = a.args[0]
+        if not isinstance(a, ast.Name):
+            raise Untranslatable('%s: first argument of merge_bams is not a name' % ctx.fname)
+        vals = ctx.assigned.get(a.id, [])
+        if len(vals) != 1:
+            raise Untranslatable('%s: %s is assigned %d times' % (ctx.fname, a.id, len(vals)))
+        v = vals[0]
+        if isinstance(v, ast.BinOp) and isinstance(v.op, ast.Add) and isinstance(v.left, ast.List) and isinstance(v.right, ast.Name):
+            v = v.right
+        if isinstance(v, ast.Name):
+            a = v
+            vals = ctx.assigned.get(a.id, [])
+            if len(vals) != 1:
+                raise Untranslatable('%s: %s is assigned %d times' % (ctx.fname, a.id, len(vals)))
+            v = vals[0]
+        if not (isinstance(v, ast.List) and not v.elts):
+            raise Untranslatable('%s: the merge list %s does not start empty' % (ctx.fname, a.id))
+        return a.id
+
+    def check_timeouts_read(self, ctx, s, meta):
+        """the parent reads the reported tasks from the worker's meta and blacklists them in the header
+        (what "reported" means for the output; the header itself is read back by the correspondence check)"""
+        ok = False
+        for n in ast.walk(s):
+            if isinstance(n, ast.For):
+                it = n.iter
+                src = [it] + (ctx.assigned.get(it.id, []) if isinstance(it, ast.Name) else [])
+                reads = any(isinstance(m, ast.Constant) and m.value == self.report_key for e in src for m in ast.walk(e)) and \
+                    any(isinstance(m, ast.Name) and m.id == meta for e in src for m in ast.walk(e))
+                if reads and any(isinstance(c, ast.Call) and dotted(c.func) == 'add_blacklisted_region' for c in ast.walk(n)):
+                    ok = True
+        if not ok:
+            self.refuse(ctx, s, 'the parent does not blacklist the tasks the worker reports as timed out')
 
     def retry_loop(self, ctx, s):
         """for i, p in enumerate(L): failed=False; try: X except Exception: ...; failed=True; if i==len(L)-1: raise
@@ -518,7 +742,13 @@ class Gen:
                     post.insert(0, 'sorted_bam_file_post')
                     continue
             out += self.expr_steps(ctx, ce)
-        out += self.walk(ctx, s.body, in_loop)
+        if post:
+            # leaving the block by break / continue / return would run the exit code: not translated
+            ctx.no_flow += 1
+            out += self.walk(ctx, s.body, in_loop=False)
+            ctx.no_flow -= 1
+        else:
+            out += self.walk(ctx, s.body, in_loop)
         return out + post
 
     def try_stmt(self, ctx, s, in_loop):
@@ -604,16 +834,8 @@ class Gen:
         cmd = self.funcs.get((TM, 'run_multiome_tagging_cmd'))
         if cmd is None or [ast.unparse(x) for x in cmd.body] != ['args = argparser.parse_args(commandline)', 'run_multiome_tagging(args)']:
             raise Untranslatable('run_multiome_tagging_cmd changed')
-        # worker: the with block of run_tagging_tasks
-        rt = self.funcs.get((TG, 'run_tagging_tasks'))
-        if rt is None:
-            raise Untranslatable('run_tagging_tasks not found')
-        withs = [s for s in rt.body if isinstance(s, ast.With)]
-        if len(withs) != 1:
-            raise Untranslatable('run_tagging_tasks: expected one top-level with block')
-        ctx = Ctx(self, 'run_tagging_tasks', rt, [ast.Name('target_file', ast.Load())], TG)
-        self.finish_def('worker_body', self.seq(self.walk(ctx, [withs[0]])))
-        self.record(TG, rt)
+        # worker: the whole body of run_tagging_tasks, run_tagging_task inlined
+        self.build_worker()
         # main
         run = self.funcs.get((TM, 'run_multiome_tagging'))
         if run is None:
@@ -628,6 +850,161 @@ class Gen:
         for need in ('tag_multiome_single_thread', 'tag_multiome_multi_processing', 'sorted_bam_file', 'sort_and_index', 'merge_bams'):
             if not self.built.get(need):
                 raise Untranslatable('%s is not reached from run_multiome_tagging with the output path' % need)
+
+    def build_task(self):
+        """run_tagging_task, inlined where the worker calls it with the output handle"""
+        if 'run_tagging_task' in self.built:
+            if self.built['run_tagging_task'] is None:
+                raise Untranslatable('recursion through run_tagging_task')
+            return
+        self.built['run_tagging_task'] = None
+        fdef = self.funcs[(TG, 'run_tagging_task')]
+        ctx = Ctx(self, 'run_tagging_task', fdef, [], TG)
+        ctx.handles.add('output')
+        for n in ast.walk(fdef):
+            if isinstance(n, ast.Name) and n.id == 'output' and isinstance(n.ctx, (ast.Store, ast.Del)):
+                self.refuse(ctx, n, 'parameter output is re-assigned')
+        # the molecule count the task reports: return {KEY: COUNTER, ...} as the last statement
+        last = fdef.body[-1]
+        rets = [n for n in walk_own(fdef) if isinstance(n, ast.Return)]
+        if not (isinstance(last, ast.Return) and rets == [last] and isinstance(last.value, ast.Dict)):
+            self.refuse(ctx, last, 'run_tagging_task does not end with its only return of a dict literal')
+        found = [(k.value, v.id) for k, v in zip(last.value.keys, last.value.values)
+                 if isinstance(k, ast.Constant) and isinstance(v, ast.Name) and 'molecules' in str(k.value)]
+        if len(found) != 1:
+            self.refuse(ctx, last, 'the returned statistics do not contain exactly one molecule count')
+        self.task_key, ctx.counter = found[0]
+        self.task_counter = ctx.counter
+        term = self.seq(self.walk(ctx, fdef.body))
+        for need in ('ECntReset', 'ECntInc', 'EUnit'):
+            if need not in term:
+                self.refuse(ctx, fdef, 'run_tagging_task: no %s step found' % need)
+        self.check_counter_follows_write(ctx, fdef)
+        self.finish_def('run_tagging_task_body', term)
+        self.record(TG, fdef)
+        self.built['run_tagging_task'] = True
+
+    def check_counter_follows_write(self, ctx, fdef):
+        """role check: `COUNTER += 1` is a statement of the same block as the write_pysam if-chain, after it and not
+        under a further condition (every written molecule is counted)"""
+        for n in ast.walk(fdef):
+            for blk in (getattr(n, 'body', None), getattr(n, 'orelse', None)):
+                if not isinstance(blk, list):
+                    continue
+                inc = [i for i, x in enumerate(blk) if isinstance(x, ast.AugAssign) and isinstance(x.target, ast.Name)
+                       and x.target.id == ctx.counter]
+                if inc:
+                    wr = [i for i, x in enumerate(blk) if any(isinstance(c, ast.Call) and dotted(c.func) and
+                                                              dotted(c.func).endswith('write_pysam') for c in ast.walk(x))]
+                    if len(inc) == 1 and wr and max(wr) < inc[0] and isinstance(n, ast.For):
+                        return
+                    self.refuse(ctx, blk[inc[0]], 'the molecule counter is not incremented right after the molecule is written')
+        self.refuse(ctx, fdef, 'no increment of the molecule counter found')
+
+    def build_worker(self):
+        rt = self.funcs.get((TG, 'run_tagging_tasks'))
+        if rt is None:
+            raise Untranslatable('run_tagging_tasks not found')
+        withs = [i for i, s in enumerate(rt.body) if isinstance(s, ast.With)]
+        if len(withs) != 1:
+            raise Untranslatable('run_tagging_tasks: expected one top-level with block')
+        wi = withs[0]
+        ctx = Ctx(self, 'run_tagging_tasks', rt, [ast.Name('target_file', ast.Load())], TG)
+        ctx.ret_ok = True
+        # (1) preamble: argument unpacking, naming of the temp BAM (uuid4 + collision loop), initial values; the
+        #     temp BAM path may only be assigned here
+        pre_stmts, rest = rt.body[:wi], rt.body[wi:]
+        for n in rest:
+            for m in ast.walk(n):
+                if isinstance(m, ast.Name) and m.id == 'target_file' and isinstance(m.ctx, (ast.Store, ast.Del)):
+                    self.refuse(ctx, m, 'the temp BAM path is re-assigned after the naming preamble')
+        if not any(isinstance(x, ast.Assign) and any(isinstance(t, ast.Name) and t.id == 'target_file' for t in x.targets)
+                   and any(isinstance(c, ast.Call) and dotted(c.func) in ('uuid4', 'uuid.uuid4') for c in ast.walk(x.value))
+                   for x in pre_stmts):
+            self.refuse(ctx, rt, 'the temp BAM of a worker is not named by uuid4 (a fresh file is assumed)')
+        # (2) roles: meta = {'timeout_tasks': L, ...}; L = []; accumulator A = 0, fed from the task's statistics
+        metas = [x for x in rest if isinstance(x, ast.Assign) and isinstance(x.value, ast.Dict) and len(x.targets) == 1
+                 and isinstance(x.targets[0], ast.Name)]
+        rets = [n for n in walk_own(rt) if isinstance(n, ast.Return)]
+        meta = None
+        for x in metas:
+            if all(isinstance(r.value, ast.Tuple) and len(r.value.elts) == 2 and isinstance(r.value.elts[1], ast.Name)
+                   and r.value.elts[1].id == x.targets[0].id for r in rets) and rets:
+                meta = x
+        if meta is None or len(ctx.assigned.get(meta.targets[0].id, [])) != 1:
+            self.refuse(ctx, rt, 'run_tagging_tasks: the meta dict returned with the path was not found')
+        ctx.meta_var = meta.targets[0].id
+        rep = [(k.value, v.id) for k, v in zip(meta.value.keys, meta.value.values)
+               if isinstance(k, ast.Constant) and isinstance(v, ast.Name) and 'timeout' in str(k.value)]
+        if len(rep) != 1:
+            self.refuse(ctx, meta, 'meta does not contain exactly one list of timed-out tasks')
+        self.report_key, ctx.report_list = rep[0]
+        vals = ctx.assigned.get(ctx.report_list, [])
+        if not (len(vals) == 1 and isinstance(vals[0], ast.List) and not vals[0].elts):
+            self.refuse(ctx, meta, 'the list of timed-out tasks does not start empty')
+        self.build_task()
+        # the accumulator: the augmented assignment fed from <stat>.get(<task key>, 0), <stat> = run_tagging_task(...)
+        accs = []
+        for n in ast.walk(rt):
+            if isinstance(n, ast.AugAssign) and isinstance(n.target, ast.Name):
+                for m in ast.walk(n.value):
+                    if isinstance(m, ast.Constant) and m.value == self.task_key:
+                        accs.append(n)
+        if len(accs) != 1:
+            self.refuse(ctx, rt, 'expected exactly one accumulation of %r' % self.task_key)
+        ctx.acc = accs[0].target.id
+        stats = [x.targets[0].id for x in ast.walk(rt) if isinstance(x, ast.Assign) and len(x.targets) == 1
+                 and isinstance(x.targets[0], ast.Name) and isinstance(x.value, ast.Call) and dotted(x.value.func) == 'run_tagging_task']
+        if len(stats) != 1:
+            self.refuse(ctx, rt, 'expected exactly one `<stat> = run_tagging_task(...)`')
+        ctx.acc_from = (stats[0], self.task_key)
+        self.check_acc_follows_task(ctx, rt, stats[0])
+        ctx.allow_out_assign = True
+        pre = []
+        for x in pre_stmts:
+            if isinstance(x, ast.While):
+                if self.calls_with_steps(ctx, x):
+                    self.refuse(ctx, x, 'while loop with side effects')
+                continue
+            if not isinstance(x, (ast.Assign, ast.Expr, ast.AnnAssign)):
+                self.refuse(ctx, x, 'statement kind %s in the naming preamble' % type(x).__name__)
+            pre += self.stmt(ctx, x, False)
+        ctx.allow_out_assign = False
+        if not ctx.acc_seen:
+            self.refuse(ctx, rt, 'the accumulator %s is not initialised to 0 before the with block' % ctx.acc)
+        body = self.walk(ctx, rest)
+        term = self.seq(pre + body)
+        for need in ('Return VPath', 'Return VNone', 'IfW GTotal', 'EAccum', 'EReport', 'run_tagging_task_body'):
+            if need not in term:
+                self.refuse(ctx, rt, 'run_tagging_tasks: no %s found' % need)
+        if not isinstance(rt.body[-1], ast.Return) and not (isinstance(rt.body[-1], ast.If) and self.all_paths_return(rt.body[-1])):
+            self.refuse(ctx, rt, 'run_tagging_tasks can fall off its end without returning (path, meta)')
+        self.finish_def('worker_full', term)
+        self.record(TG, rt)
+
+    def all_paths_return(self, s):
+        def blk(b):
+            if not b:
+                return False
+            x = b[-1]
+            return isinstance(x, ast.Return) or (isinstance(x, ast.If) and blk(x.body) and blk(x.orelse))
+        return blk(s.body) and blk(s.orelse)
+
+    def check_acc_follows_task(self, ctx, rt, stat):
+        """role check: the accumulation is the statement right after `<stat> = run_tagging_task(...)` in the same block
+        (the count of every task that returns is added)"""
+        for n in ast.walk(rt):
+            for blk in (getattr(n, 'body', None), getattr(n, 'orelse', None)):
+                if not isinstance(blk, list):
+                    continue
+                for i, x in enumerate(blk):
+                    if isinstance(x, ast.Assign) and len(x.targets) == 1 and isinstance(x.targets[0], ast.Name) \
+                            and x.targets[0].id == stat:
+                        nxt = blk[i + 1] if i + 1 < len(blk) else None
+                        if isinstance(nxt, ast.AugAssign) and isinstance(nxt.target, ast.Name) and nxt.target.id == ctx.acc:
+                            return
+                        self.refuse(ctx, x, 'the molecule count of a finished task is not added to the accumulator right away')
+        self.refuse(ctx, rt, 'call of run_tagging_task not found')
 
     def coq(self):
         L = ['(* GENERATED by tools/c20gen.py from %s, %s, %s -- do not edit; regenerated on every run *)' % (TM, BF, TG),
@@ -650,6 +1027,20 @@ class Gen:
         L.append('Definition ch_true_multi : list nat := [%s].' % '; '.join(str(i) for i in t['multi']))
         L.append('Definition id_ch_multiprocess : nat := %d.' % t['id_mp'])
         L.append('Definition id_ch_tempfiles : nat := %d.' % t['id_tmp'])
+        for k, name in (('tasks', 'run_tagging_tasks: for task in arglist'), ('jobs', LOOP_JOBS)):
+            ids = [i for i, n in enumerate(self.loops) if n == name]
+            if len(ids) != 1:
+                raise Untranslatable('expected exactly one loop %r' % name)
+            L.append('Definition id_loop_%s : nat := %d.' % (k, ids[0]))
+        for k, pat in (('task_next', 'run_tagging_task/next(enumerate('), ('task_inc', 'run_tagging_task/%s+=1#' % self.task_counter)):
+            ids = [i for i, n in enumerate(self.labels) if n.startswith(pat)]
+            if len(ids) != 1:
+                raise Untranslatable('expected exactly one step %r' % pat)
+            L.append('Definition lbl_%s : nat := %d.' % (k, ids[0]))
+        for k in ('cluster', 'cluster_contig_none'):
+            if k not in self.special:
+                raise Untranslatable('the --cluster branch of run_multiome_tagging was not found')
+            L.append('Definition id_ch_%s : nat := %d.' % (k, self.special[k]))
         return '\n'.join(L) + '\n'
 
 
@@ -661,6 +1052,8 @@ STD_TRUE = [
     "merge_bams: which('samtools') is None", 'tag_multiome_single_thread: not no_source_reads',
     'tag_multiome_single_thread: not rgid in read_groups',
     "run_multiome_tagging: args.method == 'nla' or args.method == 'nla_no_overhang'",
+    'run_tagging_task: consensus_mode is None', 'run_tagging_task: read_groups is not None', 'run_tagging_task: fetching',
+    'run_tagging_task: enable_prefetch', 'run_tagging_task: not rgid in read_groups',
 ]
 
 
@@ -718,8 +1111,11 @@ def fault_code(f):
     return (200 if kind in ('partial', 'base_partial') else 100) + k
 
 
+W_POINTS = ('worker', 'sort_worker', 'rg_header_worker', 'w_open', 'index_worker', 'w_remove_bam', 'w_remove_bai', 'w_prefetch')
+
+
 def worker_side(f, mp):
-    return f.get('where') == 'worker' or f['point'] in ('worker', 'sort_worker', 'rg_header_worker') or \
+    return f.get('where') == 'worker' or 'jobkey' in f or f['point'] in W_POINTS or \
         (mp and f['point'] in ('write_pysam', 'write_tags', 'mol_next', 'mol_end'))
 
 CONFIGS = {
@@ -740,6 +1136,8 @@ CONFIGS = {
     # the complete data/mini_nla_test.bam (566 records, 9 MB header: 2-4 s per run): thorough tier only
     'nlafull_s': {'method': 'nla', 'bam': 'nla_full', 'mp': False},
     'nlafull_m': {'method': 'nla', 'bam': 'nla_full', 'mp': True, 'ref_config': 'nlafull_s'},
+    # --cluster (no -contig): jobs are submitted (submit_job is replaced by a recorder: nothing runs), exit()
+    'nla_c': {'method': 'nla', 'bam': 'nla', 'mp': False, 'extra': ['--cluster'], 'noref': True, 'ref_for_pre': 'nla_s'},
 }
 
 L_SINGLE_LOOP = 'tag_multiome_single_thread/next(enumerate(molecule_iterator_exec))#0'
@@ -747,6 +1145,14 @@ L_JOB_LOOP = 'tag_multiome_multi_processing/next(job_generator)#0'
 LOOP_SINGLE = 'tag_multiome_single_thread: for (i, molecule) in enumerate(molecule_iterator_exec)'
 LOOP_JOBS = 'tag_multiome_multi_processing: for (bam, meta) in job_generator'
 LOOP_MERGE = 'merge_bams: for o in bams'
+LOOP_TASKS = 'run_tagging_tasks: for task in arglist'
+LOOP_TASK_MOL = 'run_tagging_task: for (i, molecule) in enumerate('      # prefix
+LOOP_CLUSTER = 'run_multiome_tagging: for (ci, chrom) in enumerate('      # prefix
+L_TASK_NEXT = 'run_tagging_task/next(enumerate('                          # prefix
+L_TASK_WRITE = 'run_tagging_task/write_pysam#0'
+L_TASK_TAGS = 'run_tagging_task/molecule.write_tags#0'
+CH_CLUSTER = 'run_multiome_tagging: args.cluster'
+CH_CLUSTER_CONTIG = 'run_multiome_tagging: args.contig is None'
 CH_EXISTS = 'run_multiome_tagging: os.path.exists(remove_existing_path)'
 CH_MP = 'run_multiome_tagging: args.multiprocess'
 CH_METHOD = {'nla': "run_multiome_tagging: args.method == 'nla' or args.method == 'nla_no_overhang'",
@@ -789,13 +1195,26 @@ class Prop(fw.PropBase):
         'effect in the model; K covers it with run histories: input without index, input regenerated while the index of '
         'an earlier (shorter / longer, other contigs) version was left behind; "complete" is then judged against a '
         'fault-free run on the CURRENT input with a fresh index',
-        'not translated: the `if args.cluster:` branch of run_multiome_tagging (job submission; its merge job writes '
-        '"All done" itself), the body of run_tagging_task (one task = one unit), the option -head (truncates on purpose)',
+        'worker side: one result of the pool = the worker program run on a world of its own (fresh temp BAM named by uuid4, '
+        'role-checked); the pool re-raises a worker exception with its class in the parent (modelled: multiprocessing.Pool); '
+        'the data the worker branches on (molecule counter of a task, accumulator, `total_molecules > 0`, `bam is not None`, the '
+        'merge list) is identified by role checks in the translator (fail closed) and tracked as booleans; "reported" = the task '
+        'is appended to timeout_tasks in the TimeoutError handler; that the parent blacklists reported tasks in the output '
+        'header is role-checked and read back from the real header by K, not modelled; jobs run one after the other in '
+        'the model (real completion order is arbitrary; the join of a worker result into the parent is order independent)',
+        '--cluster: the branch is translated up to exit(); the submitted jobs (per-contig taggers with their own status files, '
+        'the merge job whose last command writes "All done") run outside the process and are not modelled (role check: no '
+        'command or status in that branch contains the success message); K replaces submit_job by a recorder',
+        'not translated: the option -head (truncates on purpose); molecules the worker skips on purpose (`continue`: no cut '
+        'site / outside the task region) are C05/C08 matter: "every record" for a --multiprocess run = what the serial run writes',
     ]
     ASSUMPTIONS = [
-        '-head not given (drops records on purpose); not --cluster',
-        'C20_worker_complete: no TimeoutError inside a worker - run_tagging_tasks swallows it on purpose '
-        '(-max_time_per_segment: the region is skipped and recorded as blacklisted in the header); every other class is covered',
+        '-head not given (drops records on purpose)',
+        'C20_never_ok_early / C20_ok_at_end / C20_worker_path_complete (full strength: every record): no step raises '
+        'TimeoutError - run_tagging_tasks swallows it on purpose (-max_time_per_segment: the task is put in timeout_tasks and '
+        'blacklisted in the header); with TimeoutError admitted the statement is refuted (C20_every_record_refuted) and the '
+        '..._timeouts theorems state what remains: nothing is dropped without a report',
+        'aux_clear w0: ghost / data fields of the initial world in their initial state (a restriction of the model, not of the code)',
         'C20_fail_not_ok: the run does not start from a stale success marker and no blacklist temp files are cleaned '
         'up after the pipeline (the clean-up loop runs after the success marker was written)',
     ]
@@ -977,6 +1396,72 @@ class Prop(fw.PropBase):
             add(cfg, [F('pysam_merge', kind='partial')])
             add(cfg, [F('index_out')])
             add(cfg, [F('rmtree')])
+        # ---- worker side, addressed by (job, task, molecules already written by the task): every job and task of
+        # the multiprocess configurations; TimeoutError (swallowed by the worker: -max_time_per_segment path) and
+        # the other classes (the run must fail)
+        def at(cfg, j, t, i, point, **kw):
+            return dict(point=point, where='worker', jobkey=self.jobs[cfg][j]['key'], task=t, at=i, **kw)
+        for cfg in ('chic_m', 'nla_m', 'nlamc_m', 'nlamcskip_m'):
+            if quick and cfg == 'nlamcskip_m':
+                continue
+            for j, job in enumerate(self.jobs.get(cfg, [])):
+                for t, task in enumerate(job['tasks']):
+                    w = task['written']
+                    if w == 0:
+                        continue
+                    idx = sorted(set([0, w - 1])) if quick else (sorted(set([0, w // 2, w - 1])) if w > 12 else range(w))
+                    for i in idx:
+                        add(cfg, [at(cfg, j, t, i, 'write_pysam', exc='TimeoutError')])
+                        add(cfg, [at(cfg, j, t, i, 'mol_next', exc='TimeoutError')])
+                    add(cfg, [at(cfg, j, t, w - 1, 'write_pysam', exc='TimeoutError', kind='partial')])
+                    add(cfg, [at(cfg, j, t, w // 2, 'write_tags', exc='TimeoutError')])
+                    add(cfg, [at(cfg, j, t, w // 2, 'write_pysam')])
+                    if not quick:
+                        add(cfg, [at(cfg, j, t, 0, 'mol_next')])
+                        add(cfg, [at(cfg, j, t, w - 1, 'write_pysam', kind='partial')])
+                # every task of the job times out / the first and the last do
+                wt = [(t, task['written']) for t, task in enumerate(job['tasks']) if task['written']]
+                if len(wt) > 1:
+                    add(cfg, [at(cfg, j, t, w // 2, 'write_pysam', exc='TimeoutError') for t, w in wt])
+                    add(cfg, [at(cfg, j, wt[0][0], 0, 'mol_next', exc='TimeoutError'),
+                              at(cfg, j, wt[-1][0], wt[-1][1] - 1, 'write_pysam', exc='TimeoutError')])
+            if self.jobs.get(cfg):
+                # a timeout in one job and a failure elsewhere: the run must fail
+                js = [(j, t) for j, job in enumerate(self.jobs[cfg]) for t, task in enumerate(job['tasks']) if task['written']]
+                if js:
+                    j, t = js[0]
+                    add(cfg, [at(cfg, j, t, 0, 'write_pysam', exc='TimeoutError'), F('pysam_merge')])
+                    add(cfg, [at(cfg, j, t, 0, 'write_pysam', exc='TimeoutError'), F('index_out')])
+                    add(cfg, [at(cfg, j, t, 0, 'write_pysam', exc='TimeoutError'), F('write_status', after=1)])
+                    add(cfg, [at(cfg, j, t, 0, 'write_pysam', exc='TimeoutError')], pre='prev_ok')
+            for fl in (F('w_open'), F('index_worker'), F('w_remove_bam'), F('w_remove_bai'), F('w_prefetch'),
+                       F('sort_worker', first=3, exc='TimeoutError'), F('index_worker', exc='TimeoutError'),
+                       F('rg_header_worker', exc='TimeoutError'), F('w_open', exc='TimeoutError')):
+                add(cfg, [fl])
+            # TimeoutError outside the workers is an ordinary failure
+            for fl in (F('pysam_merge', exc='TimeoutError'), F('index_out', exc='TimeoutError'), F('index_header', exc='TimeoutError'),
+                       F('rmtree', exc='TimeoutError'), F('pool', exc='TimeoutError')):
+                add(cfg, [fl])
+        for cfg in ('chic_m', 'nla_m'):
+            for fl in (F('w_open'), F('index_worker')) + (() if quick else (F('w_remove_bam'), F('w_prefetch'))):
+                sweep(cfg, fl)
+        for cfg in ('chic_s', 'nla_s'):
+            n = self.n_mol[cfg]
+            for fl in (F('write_pysam', after=n // 2, exc='TimeoutError'), F('mol_next', after=0, exc='TimeoutError'),
+                       F('sort', first=3, exc='TimeoutError'), F('sort', first=1, exc='TimeoutError'), F('index_out', exc='TimeoutError')):
+                add(cfg, [fl])
+        # ---- --cluster
+        if 'nla_c' in self.configs():
+            nsub = self.n_submit
+            add('nla_c', [])
+            add('nla_c', [], pre='prev_ok')
+            for fl in (F('write_status', after=0), F('write_status', after=0, kind='partial'), F('write_status', after=1),
+                       F('write_status', after=1, kind='partial'), F('write_status', after=2), F('verify'),
+                       F('submit_job', after=0), F('submit_job', after=max(0, nsub - 1)), F('submit_job', after=0, kind='base')):
+                add('nla_c', [fl])
+                add('nla_c', [fl], pre='prev_ok')
+            for fl in (F('write_status', after=1), F('submit_job', after=0), F('submit_job', after=max(0, nsub - 1))):
+                sweep('nla_c', fl)
         # histories of the INPUT file: verify_and_fix_bam must (re)build a missing or outdated index, or
         # reads are silently not fetched and the "complete" output lacks records of the current input
         for cfg in ('nla_s', 'nla_m', 'chic_s', 'chic_m'):
@@ -1010,22 +1495,94 @@ class Prop(fw.PropBase):
         return out
 
     # ---------------------------------------------------------------- fault -> model step
-    def label_plan(self, case):
+    def job_index(self, cfg, key):
+        for j, job in enumerate(self.jobs.get(cfg, [])):
+            if job['key'] == key:
+                return j
+        return None
+
+    def task_entry(self, cfg, j, t):
+        """ordinal of task t of job j among all tasks (jobs run one after the other, in canonical order, in the model)"""
+        e = 0
+        for jj, job in enumerate(self.jobs[cfg]):
+            for tt, task in enumerate(job['tasks']):
+                if (jj, tt) == (j, t):
+                    return e
+                e += 1
+        raise fw.Broken('correspondence', 'no task %d of job %d in %s' % (t, j, cfg))
+
+    def worker_step(self, cfg, pt, j, t, i, kind, single_job=False):
+        """model step of a fault inside task t of job j after the task wrote i molecules: the i-th execution of the
+        step after the e-th reset of the task's molecule counter (once per task, before its molecule loop)"""
+        g = self.gen
+        e = t if single_job else self.task_entry(cfg, j, t)
+        anchor = [l for l in g.labels if l.startswith('run_tagging_task/') and l.endswith('=0#0')]
+        name = [l for l in g.labels if l.startswith(L_TASK_NEXT)]
+        if len(name) != 1 or len(anchor) != 1:
+            raise fw.Broken('correspondence', 'molecule loop / counter of run_tagging_task not found in the generated pipeline')
+        lbl = name[0] if pt == 'mol_next' else (L_TASK_WRITE if pt == 'write_pysam' else L_TASK_TAGS)
+        return (lbl, i, kind, (anchor[0], e))
+
+    def label_plan(self, case, res=None):
         """list of (label name, occurrence, kind code) in the order the faults happen in the run"""
-        mp = CONFIGS[case['config']]['mp']
+        cfg = case['config']
+        mp = CONFIGS[cfg]['mp']
         plan = []
+        fired = list((res or {}).get('wfired') or [])
         for f in case['faults']:
             pt, kind = f['point'], fault_code(f)
-            if mp and worker_side(f, mp):
-                if pt == 'sort_worker' and f.get('first', 3) < 3:
-                    continue       # retried inside the worker: no failure visible to the pipeline
-                # the exception travels through the pool with its class and is raised by next(job_generator)
-                plan.append((L_JOB_LOOP, 0, 100 + kind % 100))
+            if 'jobkey' in f:
+                j = self.job_index(cfg, f['jobkey'])
+                if j is None:
+                    raise fw.Broken('correspondence', 'job %r not found in the reference run of %s' % (f['jobkey'], cfg))
+                plan.append(self.worker_step(cfg, pt, j, f['task'], f['at'], kind))
+            elif mp and worker_side(f, mp):
+                if pt == 'sort_worker':
+                    # each worker process fails its first `first` sorts; the third failure ends the job
+                    for a in range(f.get('first', 3)):
+                        plan.append(('sort_and_index/pysam.sort#%d' % a, 0, kind))
+                elif pt == 'rg_header_worker':
+                    plan.append(('sorted_bam_file/add_readgroups_to_header#0', 0, kind))
+                elif pt == 'w_open':
+                    plan.append(('run_tagging_tasks/AlignmentFile#0', 0, kind))
+                elif pt == 'index_worker':
+                    plan.append(('sort_and_index/pysam.index#0', 0, kind))
+                elif pt == 'w_prefetch':
+                    plan.append(('run_tagging_task/prefetch#0', 0, kind))
+                elif pt in ('w_remove_bam', 'w_remove_bai'):
+                    # only a job that wrote nothing removes its temp BAM
+                    if any(r['point'] == pt for r in fired) or res is None:
+                        plan.append(('run_tagging_tasks/remove#%d' % (0 if pt == 'w_remove_bam' else 1), 0, kind))
+                elif pt in ('write_pysam', 'write_tags', 'mol_next') and self.jobs.get(cfg):
+                    # addressed by a global call index: the implementation reports in which task it fired
+                    hit = [r for r in fired if r['point'] == pt]
+                    if hit:
+                        j = self.job_index(cfg, hit[0].get('key'))
+                        if j is not None and hit[0].get('task', -1) >= 0:
+                            plan.append(self.worker_step(cfg, pt, j, hit[0]['task'], hit[0]['at'], kind))
+                        else:
+                            plan.append((L_JOB_LOOP, 0, 100 + kind % 100))
+                else:
+                    # the pool machinery itself / no per-task information: the exception travels through the pool
+                    # with its class and is raised by next(job_generator)
+                    plan.append((L_JOB_LOOP, 0, 100 + kind % 100))
+            elif res is not None and 'fired' in res and pt not in res['fired'] and f.get('kind') != 'kill':
+                # the run never reached this fault point (e.g. nothing to merge after every task timed out): the
+                # model must give the observed outcome without it
+                continue
             elif pt == 'write_status':
                 if f['after'] == 0:
                     plan.append(('run_multiome_tagging/write_status#0', 0, kind))
+                elif CONFIGS[cfg].get('noref'):
+                    # --cluster: #1 'Submitting jobs...' on the output, then one 'SUBMITTED' per contig on its temp path
+                    plan.append(('run_multiome_tagging/write_status#1', 0, kind) if f['after'] == 1 else
+                                ('run_multiome_tagging/write_status#2', f['after'] - 2, kind))
                 else:
                     plan.append((self.ok_label(mp), 0, kind))
+            elif pt == 'submit_job':
+                n = self.n_submit
+                plan.append(('run_multiome_tagging/submit_job#0', f['after'], kind) if f['after'] < n - 1 else
+                            ('run_multiome_tagging/submit_job#1', 0, kind))
             elif pt == 'verify':
                 plan.append(('run_multiome_tagging/verify_and_fix_bam#0', 0, kind))
             elif pt == 'remove_out':
@@ -1062,6 +1619,7 @@ class Prop(fw.PropBase):
                 plan.append(('tag_multiome_multi_processing/shutil.rmtree#0', 0, kind))
             else:
                 raise fw.Broken('correspondence', 'no model step for fault point %r' % pt)
+        # the model executes the jobs one after the other: order the worker-side faults as it meets them
         return plan
 
     def ok_label(self, mp):
@@ -1074,18 +1632,39 @@ class Prop(fw.PropBase):
             raise fw.Broken('correspondence', '%s writes the success marker %d times' % (fn, len(ids)))
         return self.gen.labels[ids[0]]
 
+    def loop_overrides(self, cfg, only_job=None):
+        """iterations per ENTRY of the worker's loops: tasks of job j, molecules written by task t of job j"""
+        g = self.gen
+        jobs = self.jobs.get(cfg) or []
+        if not jobs or LOOP_TASKS not in g.loops:
+            return []
+        mol = [i for i, n in enumerate(g.loops) if n.startswith(LOOP_TASK_MOL)]
+        if len(mol) != 1:
+            raise fw.Broken('correspondence', 'molecule loop of run_tagging_task not found in the generated pipeline')
+        it, im = g.loops.index(LOOP_TASKS), mol[0]
+        over, e = [], 0
+        for j, job in enumerate(jobs if only_job is None else [jobs[only_job]]):
+            over.append([it, j, len(job['tasks'])])
+            for task in job['tasks']:
+                over.append([im, e, task['written']])
+                e += 1
+        return over
+
     def model_input(self, case, faults_idx):
         g = self.gen
         cfg = case['config']
         mp = CONFIGS[cfg]['mp']
+        cluster = bool(CONFIGS[cfg].get('noref'))
         cnts = []
         for name in g.loops:
             if name == LOOP_SINGLE:
-                cnts.append(self.n_mol[cfg])
+                cnts.append(self.n_mol.get(cfg, 1))
             elif name == LOOP_JOBS:
-                cnts.append(self.n_jobs[cfg])
+                cnts.append(self.n_jobs.get(cfg, 1))
             elif name == LOOP_MERGE:
-                cnts.append(self.n_jobs[cfg] + 1)
+                cnts.append(self.n_jobs.get(cfg, 1) + 1)
+            elif name.startswith(LOOP_CLUSTER):
+                cnts.append(max(0, self.n_submit - 1))
             else:
                 cnts.append(1)
         chs = []
@@ -1095,6 +1674,10 @@ class Prop(fw.PropBase):
                 v = mp
             if name == CH_EXISTS:
                 v = case.get('pre') == 'prev_ok'
+            if name in (CH_CLUSTER, CH_CLUSTER_CONTIG):
+                v = cluster
+            if name == 'merge_bams: len(bams) == 1' and case.get('_paths') == 0:
+                v = True        # no worker returned a temp BAM: only the header BAM is "merged" (moved)
             if name == 'tag_multiome_multi_processing: one_contig_per_process':
                 v = '--one_contig_per_process' in CONFIGS[cfg].get('extra', [])
             if name == "tag_multiome_multi_processing: molecule_iterator_args.get('contig', None) is not None":
@@ -1103,38 +1686,148 @@ class Prop(fw.PropBase):
                 v = name == CH_METHOD[CONFIGS[cfg]['method']]
             chs.append(1 if v else 0)
         w0 = [3, 1, 1, 1, 1] if case.get('pre') == 'prev_ok' else [0, 0, 0, 0, 0]
-        return [w0, cnts, chs, [[k, kind] for k, kind in faults_idx]]
+        return [w0, cnts, chs, [[k, kind] for k, kind in faults_idx], self.loop_overrides(cfg) if mp else []]
 
-    def predict(self, cases):
-        """model outcome per case; fault (label, occurrence) pairs are resolved to dynamic step indices
-        with the model's own trace, one fault at a time"""
+    def resolve(self, cases, plans, make_input, mode):
+        """run the model; fault (label, occurrence[, anchor]) entries are resolved to dynamic step indices with the
+        model's own trace, one fault at a time"""
         g = self.gen
-        for name in (LOOP_SINGLE, LOOP_JOBS, CH_MP, CH_EXISTS) + tuple(CH_METHOD.values()):
-            if name not in g.loops and name not in g.choices:
-                raise fw.Broken('correspondence', 'loop / run-time test not found in the generated pipeline: %s' % name)
-        plans = [self.label_plan(c) for c in cases]
         resolved = [[] for _ in cases]
         depth = max([len(p) for p in plans] + [0])
-        outs = None
+        outs = inputs = None
         for rnd in range(depth + 1):
-            inputs = [self.model_input(c, resolved[i]) for i, c in enumerate(cases)]
-            outs = fw.run_model('C20', 0, inputs)
+            inputs = [make_input(c, resolved[i]) for i, c in enumerate(cases)]
+            outs = fw.run_model('C20', mode, inputs) if inputs else []
             if rnd == depth:
                 break
             for i, plan in enumerate(plans):
                 if rnd < len(plan):
-                    lname, occ, kind = plan[rnd]
+                    lname, occ, kind = plan[rnd][:3]
+                    anchor = plan[rnd][3] if len(plan[rnd]) > 3 else None
                     if lname not in g.labels:
                         raise fw.Broken('correspondence', 'step %r not found in the generated pipeline' % lname)
                     lid = g.labels.index(lname)
-                    pos = [k for k, l in enumerate(outs[i][2]) if l == lid]
+                    trace = outs[i][2]
+                    start = -1
+                    if anchor is not None:
+                        if anchor[0] not in g.labels:
+                            raise fw.Broken('correspondence', 'step %r not found in the generated pipeline' % anchor[0])
+                        aid = g.labels.index(anchor[0])
+                        apos = [k for k, l in enumerate(trace) if l == aid]
+                        if anchor[1] >= len(apos):
+                            raise fw.Broken('correspondence', 'model trace of %r does not reach task %d' % (cases[i], anchor[1]))
+                        start = apos[anchor[1]]
+                        nxt = apos[anchor[1] + 1] if anchor[1] + 1 < len(apos) else len(trace)
+                    pos = [k for k, l in enumerate(trace) if l == lid and k > start and (anchor is None or k < nxt)]
                     if occ >= len(pos):
                         raise fw.Broken('correspondence', 'model trace of %r does not reach occurrence %d of %s'
                                         % (cases[i], occ, lname))
                     resolved[i].append((pos[occ], kind))
+        return inputs, outs, resolved
+
+    def predict(self, cases, results=None):
+        g = self.gen
+        for name in (LOOP_SINGLE, LOOP_JOBS, CH_MP, CH_EXISTS, CH_CLUSTER, LOOP_TASKS) + tuple(CH_METHOD.values()):
+            if name not in g.loops and name not in g.choices:
+                raise fw.Broken('correspondence', 'loop / run-time test not found in the generated pipeline: %s' % name)
+        plans = [self.label_plan(c, results[i] if results else None) for i, c in enumerate(cases)]
+        if results:
+            # run-time facts the model takes as inputs (branch outcomes): how many workers returned a temp BAM
+            cases = [dict(c, _paths=sum(1 for j in (r.get('wjobs') or []) if j.get('ret') == 'path'))
+                     if CONFIGS[c['config']]['mp'] and r.get('wjobs') else c for c, r in zip(cases, results)]
+        inputs, outs, resolved = self.resolve(cases, plans, self.model_input, 0)
         self.model_pairs = list(zip(inputs, outs))
-        return [{'raised': o[0], 'world': o[1][:5], 'lost': o[1][5], 'steps': len(o[2]),
+        return [{'raised': o[0], 'world': o[1][:5], 'lost': o[1][5], 'rep': o[1][6], 'steps': len(o[2]),
                  'fault_steps': resolved[i]} for i, o in enumerate(outs)]
+
+    # ---------------------------------------------------------------- worker-only cases (mode 3: worker_full)
+    def worker_cases(self):
+        """one real run_tagging_tasks call per case, on the arguments a job had in the reference run"""
+        quick = self.tier == 'quick'
+        out = []
+        rot = itertools.count()
+
+        def add(cfg, j, faults):
+            fs = []
+            for f in faults:
+                f = dict(f)
+                if 'exc' not in f and f.get('kind', 'exc') in ('exc', 'partial'):
+                    e = EXC_WORKER[next(rot) % len(EXC_WORKER)]
+                    if e:
+                        f['exc'] = e
+                fs.append(f)
+            out.append({'config': cfg, 'job': j, 'faults': fs})
+        F = lambda point, **kw: dict(point=point, **kw)
+        for cfg in ('chic_m', 'nlamc_m', 'nla_m', 'nlamcskip_m'):
+            if quick and cfg in ('nla_m', 'nlamcskip_m'):
+                continue
+            for j, job in enumerate(self.jobs.get(cfg, [])):
+                key = job['key']
+                at = lambda t, i, point, **kw: dict(point=point, where='worker', jobkey=key, task=t, at=i, **kw)
+                add(cfg, j, [])
+                total = sum(task['written'] for task in job['tasks'])
+                for fl in (F('w_open'), F('rg_header_worker'), F('index_worker'), F('w_prefetch'),
+                           F('sort_worker', first=3), F('sort_worker', first=2),
+                           F('w_remove_bam'), F('w_remove_bai'),
+                           F('sort_worker', first=3, exc='TimeoutError'), F('index_worker', exc='TimeoutError'),
+                           F('index_worker', kind='base'), F('w_open', kind='base')):
+                    add(cfg, j, [fl])
+                if total > 1:
+                    # (the injected partial sort keeps the first half of the records: it needs at least two)
+                    add(cfg, j, [F('sort_worker', first=1, kind='partial')])
+                    add(cfg, j, [F('sort_worker', first=3, kind='partial')])
+                wt = [(t, task['written']) for t, task in enumerate(job['tasks']) if task['written']]
+                for t, w in wt:
+                    idx = sorted(set([0, w // 2, w - 1])) if (quick or w > 12) else range(w)
+                    for i in idx:
+                        add(cfg, j, [at(t, i, 'write_pysam', exc='TimeoutError')])
+                        add(cfg, j, [at(t, i, 'mol_next', exc='TimeoutError')])
+                        add(cfg, j, [at(t, i, 'write_pysam')])
+                    add(cfg, j, [at(t, w - 1, 'write_pysam', exc='TimeoutError', kind='partial')])
+                    add(cfg, j, [at(t, w // 2, 'write_tags', exc='TimeoutError')])
+                    add(cfg, j, [at(t, 0, 'mol_next')])
+                    add(cfg, j, [at(t, w // 2, 'write_tags')])
+                    add(cfg, j, [at(t, w // 2, 'write_pysam', kind='base')])
+                    add(cfg, j, [at(t, 0, 'write_pysam', exc='TimeoutError'), F('sort_worker', first=3)])
+                    add(cfg, j, [at(t, 0, 'write_pysam', exc='TimeoutError'), F('index_worker')])
+                    add(cfg, j, [at(t, 0, 'write_pysam', exc='TimeoutError'), F('w_remove_bam')])
+                if len(wt) > 1:
+                    add(cfg, j, [at(t, w // 2, 'write_pysam', exc='TimeoutError') for t, w in wt])
+                    add(cfg, j, [at(t, 0, 'mol_next', exc='TimeoutError') for t, w in wt])
+                    add(cfg, j, [at(wt[0][0], 0, 'mol_next', exc='TimeoutError'), at(wt[-1][0], 0, 'write_pysam')])
+        return out
+
+    def worker_plan(self, wc, res):
+        cfg, j = wc['config'], wc['job']
+        plan = []
+        for f in wc['faults']:
+            pt, kind = f['point'], fault_code(f)
+            if 'jobkey' in f:
+                plan.append(self.worker_step(cfg, pt, j, f['task'], f['at'], kind, single_job=True))
+            elif pt == 'sort_worker':
+                for a in range(1 if kind % 100 == 6 else f.get('first', 3)):
+                    plan.append(('sort_and_index/pysam.sort#%d' % a, 0, kind))
+            elif pt == 'rg_header_worker':
+                plan.append(('sorted_bam_file/add_readgroups_to_header#0', 0, kind))
+            elif pt == 'w_open':
+                plan.append(('run_tagging_tasks/AlignmentFile#0', 0, kind))
+            elif pt == 'index_worker':
+                plan.append(('sort_and_index/pysam.index#0', 0, kind))
+            elif pt == 'w_prefetch':
+                plan.append(('run_tagging_task/prefetch#0', 0, kind))
+            elif pt in ('w_remove_bam', 'w_remove_bai'):
+                if any(r['point'] == pt for r in (res.get('wfired') or [])) or pt in (res.get('fired') or []):
+                    plan.append(('run_tagging_tasks/remove#%d' % (0 if pt == 'w_remove_bam' else 1), 0, kind))
+            else:
+                raise fw.Broken('correspondence', 'no worker step for fault point %r' % pt)
+        return plan
+
+    def worker_input(self, wc, faults_idx):
+        g = self.gen
+        cfg = wc['config']
+        cnts = [1 for _ in g.loops]
+        chs = [1 if name in STD_TRUE else 0 for name in g.choices]
+        return [[0, 0, 0, 0, 0], cnts, chs, [[k, kind] for k, kind in faults_idx], self.loop_overrides(cfg, only_job=wc['job'])]
 
     # ---------------------------------------------------------------- K
     def configs(self):
@@ -1142,66 +1835,121 @@ class Prop(fw.PropBase):
             return {k: v for k, v in CONFIGS.items() if not k.startswith('nlafull')}
         return CONFIGS
 
-    def run_impl_cases(self, cases, small_n):
-        chunks = max(1, min(6, len(cases) // 12))
+    def run_impl_cases(self, cases, small_n, wcases=()):
+        chunks = max(1, min(5, (len(cases) + len(wcases)) // 12))
         parts = [cases[i::chunks] for i in range(chunks)]
+        wparts = [list(wcases)[i::chunks] for i in range(chunks)]
 
-        def one(part):
-            return fw.run_impl('impl_c20.py', {'configs': self.configs(), 'cases': part, 'small_n': small_n}, timeout=1500)
+        def one(k):
+            return fw.run_impl('impl_c20.py', {'configs': self.configs(), 'cases': parts[k], 'wcases': wparts[k],
+                                               'small_n': small_n}, timeout=1500)
         with ThreadPoolExecutor(max_workers=chunks) as ex:
-            rs = list(ex.map(one, parts))
+            rs = list(ex.map(one, range(chunks)))
         res = [None] * len(cases)
+        wres = [None] * len(wcases)
         for ci, r in enumerate(rs):
             for j, o in enumerate(r['cases']):
                 res[ci + j * chunks] = o
+            for j, o in enumerate(r.get('wcases', [])):
+                wres[ci + j * chunks] = o
+        self.wres = wres
         return rs[0]['refs'], res
+
+    def probe(self, small_n):
+        """reference runs first: molecule / job / task counts parametrise the crash points"""
+        probe = fw.run_impl('impl_c20.py', {'configs': self.configs(), 'small_n': small_n,
+                                            'cases': [{'config': 'nla_c', 'faults': [], 'pre': 'fresh'}] if 'nla_c' in self.configs() else []})
+        self.refs = probe['refs']
+        self.n_mol = {k: v['molecules'] for k, v in self.refs.items()}
+        self.n_jobs = {k: v['jobs'] for k, v in self.refs.items()}
+        # per job (canonical order) the tasks and what each wrote; only used when the harness could observe the tasks
+        self.jobs = {}
+        for k, v in self.refs.items():
+            jobs = v.get('wjobs') or []
+            if jobs and all(j.get('tasks') for j in jobs) and len(jobs) == v['jobs'] \
+                    and sum(t['written'] for j in jobs for t in j['tasks']) == v['molecules']:
+                self.jobs[k] = jobs
+        # --cluster: number of submit_job calls of a fault-free run (one per contig + the merge job)
+        self.n_submit = 0
+        self.cluster_probe = None
+        if probe['cases']:
+            self.cluster_probe = probe['cases'][0]
+            self.n_submit = self.cluster_probe.get('submitted', 0) if 'world' in self.cluster_probe else 0
 
     def correspondence(self):
         small_n = 60 if self.tier == 'quick' else 160
-        # reference runs first: molecule / job counts parametrise the crash points
-        probe = fw.run_impl('impl_c20.py', {'configs': self.configs(), 'cases': [], 'small_n': small_n})
-        self.refs = probe['refs']
-        bad = {k: v for k, v in self.refs.items() if v['raised'] or v['world'] != [3, 1, 1, 1, 1]}
-        self.n_mol = {k: v['molecules'] for k, v in self.refs.items()}
-        self.n_jobs = {k: v['jobs'] for k, v in self.refs.items()}
+        self.probe(small_n)
+        bad = {k: v for k, v in self.refs.items() if v['raised'] or v['world'] != [3, 1, 1, 1, 1] or v.get('rep')}
         cases = self.cases()
         corpus = self.load_corpus()
         cases = corpus + cases
-        refs, res = self.run_impl_cases(cases, small_n)
+        wcases = self.worker_cases()
+        refs, res = self.run_impl_cases(cases, small_n, wcases)
+        wres = self.wres
         self.impl_cases, self.impl_res = cases, res
+        self.impl_wcases = wcases
         fired = [bool(r.get('fired')) for r in res]
         self.cov['harness'] = 'every tagger run in its own forked child and process group, 60 s hard timeout per run'
         keyset = set(json.dumps(c, sort_keys=True) for c, fr in zip(cases, fired) if fr and c['faults'])
+        keyset |= set(json.dumps(c, sort_keys=True) for c, r in zip(wcases, wres) if c['faults'] and r.get('fired'))
         hist = {}
         for c in cases:
             for f in c['faults'] or [{'point': 'none'}]:
                 hist[f['point']] = hist.get(f['point'], 0) + 1
+        whist = {}
+        for c in wcases:
+            for f in c['faults'] or [{'point': 'none'}]:
+                k = f['point'] + (':TimeoutError' if f.get('exc') == 'TimeoutError' else '')
+                whist[k] = whist.get(k, 0) + 1
         outcome_hist = {}
         for r in res:
-            k = (describe(r['world']) + ' raised=%s' % r.get('raised')) if 'world' in r else 'harness_error'
+            k = (describe(r['world']) + ' reported=%s raised=%s' % (r.get('rep'), r.get('raised'))) if 'world' in r else 'harness_error'
             outcome_hist[k] = outcome_hist.get(k, 0) + 1
+        wout_hist = {}
+        for r in wres:
+            k = ('returns=%s %s reported=%s raised=%s' % (r.get('ret'), describe(r['world'])[12:], r.get('rep'), r.get('raised'))) \
+                if 'world' in r else ('skipped' if 'skipped' in r else 'harness_error')
+            wout_hist[k] = wout_hist.get(k, 0) + 1
+        tmo = [i for i, c in enumerate(cases) if any(f.get('exc') == 'TimeoutError' and worker_side(f, CONFIGS[c['config']]['mp'])
+                                                   and CONFIGS[c['config']]['mp'] for f in c['faults'])]
         self.cov.update({
-            'evaluations': len(cases) + len(self.refs),
+            'evaluations': len(cases) + len(self.refs) + len(wcases),
             'distinct_nontrivial': len(keyset),
             'rule': 'one evaluation = one real run of run_multiome_tagging_cmd on a copy of a /repo/data BAM '
                     '(chic_test_region.bam: 17 records; first %d records of mini_nla_test.bam) with faults injected by '
-                    'monkey-patching, then reading back status file and output BAM; non-trivial = an injected fault '
+                    'monkey-patching, then reading back status file, output BAM and its header, or (worker cases) one real '
+                    'run_tagging_tasks call on the arguments a job had in a fault-free --multiprocess run, then reading back '
+                    'its return value and temp BAM; non-trivial = an injected fault '
                     'actually fired; distinct by (configuration, previous output present, fault list)' % small_n,
-            'configs': {k: {'molecules': self.n_mol[k], 'jobs': self.n_jobs[k], 'records': self.refs[k]['n_records']} for k in self.refs},
+            'configs': {k: {'molecules': self.n_mol[k], 'jobs': self.n_jobs[k], 'records': self.refs[k]['n_records'],
+                            'tasks_written_per_job': [[t['written'] for t in j['tasks']] for j in self.jobs.get(k, [])]}
+                        for k in self.refs},
             'fault_point_histogram': hist, 'outcome_histogram': outcome_hist,
-            'faults_fired': sum(fired), 'cases_over_previous_output': sum(1 for c in cases if c.get('pre') == 'prev_ok'),
-            'multi_fault_cases': sum(1 for c in cases if len(c['faults']) > 1),
+            'worker_cases': len(wcases), 'worker_fault_point_histogram': whist, 'worker_outcome_histogram': wout_hist,
+            'worker_timeout_cases_in_pipeline': len(tmo),
+            'cluster_cases': sum(1 for c in cases if c['config'] == 'nla_c'), 'cluster_jobs_submitted': self.n_submit,
+            'faults_fired': sum(fired) + sum(1 for r in wres if r.get('fired')),
+            'cases_over_previous_output': sum(1 for c in cases if c.get('pre') == 'prev_ok'),
+            'multi_fault_cases': sum(1 for c in cases if len(c['faults']) > 1) + sum(1 for c in wcases if len(c['faults']) > 1),
             'precondition_hit_rate': 1.0,
             'exhaustive': self.tier != 'quick',
             'exhaustive_note': 'thorough: every molecule index of both single-process configurations for mol_next / '
-                               'write_tags / write_pysam; every job index for worker failures',
-            'samples': [{'input': cases[i], 'impl': {k: res[i].get(k) for k in ('world', 'raised', 'error')}}
-                        for i in (1, len(cases) // 3, len(cases) - 2)],
+                               'write_tags / write_pysam; every job index for worker failures; every job and task for '
+                               'worker-side faults, every molecule index of tasks with at most 12 molecules',
+            'samples': [{'input': cases[i], 'impl': {k: res[i].get(k) for k in ('world', 'raised', 'error', 'rep')}}
+                        for i in (1, len(cases) // 3, len(cases) - 2)] +
+                       [{'input': wcases[i], 'impl': {k: wres[i].get(k) for k in ('ret', 'world', 'raised', 'rep', 'tasks')}}
+                        for i in ([len(wcases) // 2] if wcases else [])],
         })
+        missing = [k for k, v in self.configs().items() if v.get('mp') and k not in self.jobs]
+        if missing:
+            self.notes.append('per-task observation of the pool workers not available for %r: worker-side faults are '
+                              'injected by global call index only, worker-only cases skipped' % missing)
         if bad:
             raise fw.Broken('correspondence', 'fault-free reference run does not end with status OK and a complete '
-                            'sorted indexed output: %r' % bad)
+                            'sorted indexed output: %r' % {k: {a: v[a] for a in ('raised', 'error', 'world', 'rep')} for k, v in bad.items()})
         herr = [(c, r) for c, r in zip(cases, res) if 'harness_error' in r or 'skipped' in r or r.get('raised') == 98]
+        herr += [(c, r) for c, r in zip(wcases, wres) if 'harness_error' in r]
         if herr:
             raise fw.Broken('correspondence', 'harness error (%d cases): %r' % (len(herr), herr[0]))
         # runs that did not end within the per-case timeout: no model outcome to compare with (the model has
@@ -1212,37 +1960,130 @@ class Prop(fw.PropBase):
         if len(hung) > max(2, len(cases) // 50):
             raise fw.Broken('correspondence', '%d of %d runs did not end within the per-case timeout; first: %r'
                             % (len(hung), len(cases), cases[hung[0]]))
+        # the statement evaluated on the implementation's outcomes (python transcription; the Coq decision
+        # procedure is applied below when the model is available)
+        viol = self.spec_violations()
+        if viol:
+            raise fw.Broken('correspondence', 'the specification is false on %d real outcomes; first: %s' % (len(viol), viol[0][1]))
         if not self.model_ok or self.gen is None:
             return
-        pred = self.predict(cases)
+        pred = self.predict(cases, res)
         dis = []
         for c, r, m in zip(cases, res, pred):
             if r['raised'] == 99:
                 continue
-            if r['world'] != m['world'] or r['raised'] != m['raised']:
-                dis.append({'input': c, 'impl': {'world': describe(r['world']), 'raised': r['raised'], 'error': r.get('error')},
-                            'model': {'world': describe(m['world']), 'raised': m['raised'], 'fault_steps': m['fault_steps']}})
-        self.cov['traces_validated_against_impl'] = len(cases)
-        self.cov['disagreements'] = len(dis)
+            rw, mw = list(r['world']), list(m['world'])
+            if r.get('rep') and m['rep']:
+                rw[2] = mw[2] = 0      # once a segment is reported the statement leaves "complete" free
+            if rw != mw or r['raised'] != m['raised'] or (r.get('rep', 0) != m['rep'] and r['world'][1]):
+                dis.append({'input': c, 'impl': {'world': describe(r['world']), 'reported': r.get('rep'), 'raised': r['raised'], 'error': r.get('error')},
+                            'model': {'world': describe(m['world']), 'reported': m['rep'], 'raised': m['raised'], 'fault_steps': m['fault_steps']}})
+        # worker-only cases against worker_full (mode 3)
+        live = [(c, r) for c, r in zip(wcases, wres) if 'world' in r and r.get('raised') != 99]
+        wplans = [self.worker_plan(c, r) for c, r in live]
+        winputs, wouts, wresolved = self.resolve([c for c, _ in live], wplans, self.worker_input, 3)
+        wdis = []
+        for (c, r), o, fs in zip(live, wouts, wresolved):
+            code = {'path': 30, 'none': 31}.get(r['ret'], r['raised'])
+            rw, mw = list(r['world']), list(o[1][:5])
+            if r['rep'] and o[1][6]:
+                rw[2] = mw[2] = 0
+            if o[0] != code or mw != rw or (o[1][6] != r['rep'] and code in (30, 31)):
+                wdis.append({'input': c, 'impl': {'returns': r['ret'], 'world': describe(r['world']), 'reported': r['rep'],
+                                                 'raised': r['raised'], 'error': r.get('error'), 'tasks': r.get('tasks')},
+                             'model': {'outcome': o[0], 'world': describe(o[1][:5]), 'reported': o[1][6], 'fault_steps': fs}})
+        self.cov['traces_validated_against_impl'] = len(cases) + len(live)
+        self.cov['disagreements'] = len(dis) + len(wdis)
         # specification (mode 2) on the implementation's outcomes
-        spec = fw.run_model('C20', 2, [[r['world'], 1 if r['raised'] else 0] for r in res])
-        self.cov['spec_on_impl'] = {'inv_true': sum(1 for s in spec if s[0]), 'fail_not_ok_true': sum(1 for s in spec if s[1]),
-                                    'of': len(spec)}
-        idx = sorted(self.rng.sample(range(len(self.model_pairs)), min(100, len(self.model_pairs))))
+        spec = fw.run_model('C20', 2, [[r['world'] + [r.get('rep', 0)], 1 if r['raised'] else 0] for r in res])
+        self.cov['spec_on_impl'] = {'inv_true': sum(1 for s in spec if s[0]), 'inv_up_to_reported_true': sum(1 for s in spec if s[1]),
+                                    'fail_not_ok_true': sum(1 for s in spec if s[2]), 'of': len(spec)}
+        pairs = self.model_pairs + list(zip(winputs, wouts))
+        idx = sorted(self.rng.sample(range(len(self.model_pairs)), min(70, len(self.model_pairs))))
         ok, nm, log = fw.vm_crosscheck('C20', 0, [self.model_pairs[i] for i in idx])
-        self.cov['vm_compute_crosscheck'] = {'cases': len(idx), 'mismatches': nm}
-        if not ok:
-            raise fw.Broken('extraction', 'vm_compute and extracted model disagree: ' + log[-800:])
-        # fail_not_ok has the hypothesis st w0 <> Ok: not applicable over a previous successful output
-        viol = [i for i, s in enumerate(spec) if not s[0] or (not s[1] and cases[i].get('pre') != 'prev_ok')]
+        widx = sorted(self.rng.sample(range(len(wouts)), min(30, len(wouts))))
+        ok2, nm2, log2 = fw.vm_crosscheck('C20', 3, [(winputs[i], wouts[i]) for i in widx]) if widx else (True, 0, '')
+        self.cov['vm_compute_crosscheck'] = {'cases': len(idx) + len(widx), 'mismatches': nm + nm2}
+        if not (ok and ok2):
+            raise fw.Broken('extraction', 'vm_compute and extracted model disagree: ' + (log if not ok else log2)[-800:])
+        # strict invariant: not applicable when a worker swallowed a TimeoutError (by design); fail_not_ok has the
+        # hypothesis st w0 <> Ok: not applicable over a previous successful output
+        tset = set(tmo)
+        viol = [i for i, s in enumerate(spec) if not s[1] or (not s[0] and i not in tset)
+                or (not s[2] and cases[i].get('pre') != 'prev_ok')]
         if viol:
-            raise fw.Broken('correspondence', 'the specification (invb / fail_not_ok) is false on %d real outcomes; first: %r -> %s'
+            raise fw.Broken('correspondence', 'the specification (invb / invb_rep / fail_not_ok) is false on %d real outcomes; first: %r -> %s'
                             % (len(viol), cases[viol[0]], describe(res[viol[0]]['world'])))
-        if dis:
-            self.dis = dis
+        self.cov['disagreement_examples'] = (dis + wdis)[:12]
+        if dis or wdis:
+            self.dis = dis + wdis
             self.save_corpus([d['input'] for d in dis[:5]])
-            raise fw.Broken('correspondence', 'model and implementation disagree on %d of %d fault cases; first: %r'
-                            % (len(dis), len(cases), dis[0]))
+            raise fw.Broken('correspondence', 'model and implementation disagree on %d of %d fault cases and %d of %d worker cases; first: %r'
+                            % (len(dis), len(cases), len(wdis), len(live), (dis + wdis)[0]))
+
+    def spec_violations(self):
+        """the statement on the real outcomes -> [(kind, text, index, is_worker_case)]"""
+        out = []
+        for i, (c, r) in enumerate(zip(self.impl_cases, self.impl_res)):
+            if 'world' not in r:
+                continue
+            bad = self.judge(c, r)
+            if bad:
+                out.append((bad[0], bad[1], i, False))
+        for i, (c, r) in enumerate(zip(getattr(self, 'impl_wcases', []), getattr(self, 'wres', []) or [])):
+            if 'world' not in r:
+                continue
+            bad = self.judge_worker(c, r)
+            if bad:
+                out.append((bad[0], bad[1], i, True))
+        return out
+
+    def judge(self, c, r):
+        """python transcription of the theorems' conclusions for one real pipeline outcome"""
+        w = r['world']
+        mp = CONFIGS[c['config']]['mp']
+        swallowed_timeout = mp and any(f.get('exc') == 'TimeoutError' and worker_side(f, mp) for f in c['faults'])
+        seg = r.get('segments')
+        if w[0] == 3 and not (w[1] and w[3] and w[4]):
+            return ('ok_early', 'status file says "Reached end. All ok!" but the output is not there / sorted / indexed')
+        if w[0] == 3 and not w[2]:
+            if not swallowed_timeout:
+                return ('ok_early', 'status file says "Reached end. All ok!" but the output does not hold every record')
+            if not r.get('rep'):
+                return ('unreported', 'status file says "Reached end. All ok!", records are missing and no region is blacklisted in the output header')
+            if seg and seg['missing_not_reported']:
+                return ('half_merged', 'status file says "Reached end. All ok!" and %d records are missing that do not belong to a '
+                                       'task reported as timed out (e.g. %r)' % (seg['missing_not_reported'], seg['example']))
+            if seg and not seg['reported_in_header']:
+                return ('unreported', 'a task the worker reported as timed out is not blacklisted in the output header')
+        if r['raised'] and r['raised'] != 99 and w[0] == 3 and c.get('pre') != 'prev_ok':
+            return ('fail_ok', 'the run failed (%s) but the status file says "Reached end. All ok!"' % r.get('error'))
+        if not r['raised'] and not c['faults'] and (w != [3, 1, 1, 1, 1] or r.get('rep')) and not CONFIGS[c['config']].get('noref'):
+            return ('clean_run', 'a fault-free run does not end with status OK and a complete sorted indexed output')
+        if CONFIGS[c['config']].get('noref') and (not r['raised'] or (w[0] == 3 and c.get('pre') != 'prev_ok') or r.get('submitted_ok_message')):
+            return ('cluster', 'the --cluster run returned / left the success marker / submitted a job that writes it')
+        return None
+
+    def judge_worker(self, c, r):
+        """... for one real run_tagging_tasks call"""
+        w = r['world']
+        tmo = any(f.get('exc') == 'TimeoutError' for f in c['faults'])
+        if r.get('ret') == 'path':
+            if not (w[1] and w[3] and w[4]):
+                return ('worker_path', 'the worker returned a temp BAM that does not exist / is not sorted / is not indexed')
+            if not w[2] and not (tmo and r.get('rep')):
+                return ('worker_path', 'the worker returned a temp BAM that lacks records although it reports no timed-out task')
+        if r.get('ret') == 'none':
+            done = [t for t in (r.get('tasks') or []) if t['outcome'] == 'ok' and t['written']]
+            if done:
+                return ('worker_none', 'the worker returned None although %d finished task(s) wrote molecules' % len(done))
+        if r.get('ret') in ('path', 'none'):
+            silent = [t for t in (r.get('tasks') or []) if t['outcome'] == 'timeout']
+            if len(silent) != (r.get('timeouts') or 0):
+                return ('worker_report', '%d task(s) timed out but the worker reports %s' % (len(silent), r.get('timeouts')))
+        if r.get('ret') == 'other':
+            return ('worker_ret', 'the worker returned something that is not (path | None, meta)')
+        return None
 
     # ---------------------------------------------------------------- corpus
     def load_corpus(self):
@@ -1272,63 +2113,81 @@ class Prop(fw.PropBase):
 
     # ---------------------------------------------------------------- search
     def search(self):
-        """The statement evaluated on the real outcomes (python transcription of invb and of
-        'failed -> status is not OK'; the model is not needed)."""
+        """The statement evaluated on the real outcomes (python transcription of the theorems' conclusions: invb /
+        invb_rep, 'failed -> status is not OK', 'a returned temp BAM is complete up to reported tasks, sorted, indexed',
+        'None only when no finished task wrote'; the model is not needed)."""
         if getattr(self, 'impl_res', None) is None:
             try:
                 small_n = 60
-                probe = fw.run_impl('impl_c20.py', {'configs': self.configs(), 'cases': [], 'small_n': small_n})
-                self.refs = probe['refs']
-                self.n_mol = {k: v['molecules'] for k, v in self.refs.items()}
-                self.n_jobs = {k: v['jobs'] for k, v in self.refs.items()}
+                self.probe(small_n)
                 self.impl_cases = self.load_corpus() + self.cases()
-                _, self.impl_res = self.run_impl_cases(self.impl_cases, small_n)
+                self.impl_wcases = self.worker_cases()
+                _, self.impl_res = self.run_impl_cases(self.impl_cases, small_n, self.impl_wcases)
             except Exception as e:
                 self.notes.append('search could not run the implementation: %r' % (e,))
                 return
         best = {}
-        for c, r in zip(self.impl_cases, self.impl_res):
-            if 'world' not in r:
-                continue
-            w = r['world']
-            bad = None
-            if not inv_py(w):
-                bad = 'status file says "Reached end. All ok!" but the output is not complete/sorted/indexed'
-            elif r['raised'] and w[0] == 3 and c.get('pre') != 'prev_ok':
-                bad = 'the run failed (%s) but the status file says "Reached end. All ok!"' % r.get('error')
-            elif not r['raised'] and not c['faults'] and w != [3, 1, 1, 1, 1]:
-                bad = 'a fault-free run does not end with status OK and a complete sorted indexed output'
-            if bad:
+        for kind, bad, i, is_w in self.spec_violations():
+            if is_w:
+                c, r = self.impl_wcases[i], self.wres[i]
+                pts = '+'.join(f['point'] + (':' + f['exc'] if f.get('exc') else '') for f in c['faults']) or 'none'
+                key = '%s:worker:%s' % (kind, pts)
+                size = len(c['faults']) * 1000 + sum(f.get('at', 0) + f.get('task', 0) * 10 for f in c['faults']) + c['job']
+                wit = {'key': key,
+                       'what': '%s; one run_tagging_tasks call on the arguments of job %d of a --multiprocess run (%s), injected: %s; '
+                               'observed: returns %s, temp BAM %s, tasks %s, reported %s, exception: %s'
+                               % (bad, c['job'], c['config'], json.dumps(c['faults']), r.get('ret'), describe(r['world'])[12:],
+                                  r.get('tasks'), r.get('timeouts'), r.get('error')),
+                       'input': {'command': 'run_tagging_tasks(<arguments of job %d of run_multiome_tagging_cmd(... %s --multiprocess)>)'
+                                            % (c['job'], CONFIGS[c['config']]['method']), 'wcase': c},
+                       'impl': {k: r.get(k) for k in ('ret', 'world', 'rep', 'timeouts', 'raised', 'error', 'tasks', 'n_records', 'n_ref')},
+                       'expected': 'a returned temp BAM exists, is sorted, indexed and complete except for tasks listed in timeout_tasks; '
+                                   'None only when no finished task wrote a molecule'}
+            else:
+                c, r = self.impl_cases[i], self.impl_res[i]
+                w = r['world']
                 pts = '+'.join(f['point'] + (':' + f['exc'] if f.get('exc') else '') for f in c['faults']) or 'none'
                 if c.get('input'):
                     pts += '@input-' + c['input']
-                pipe = 'multiprocess' if CONFIGS[c['config']]['mp'] else 'single'
-                key = 'ok_early:%s:%s' % (pipe, pts)
-                size = len(c['faults']) * 1000 + sum(f.get('after', 0) for f in c['faults']) + (500 if c.get('pre') == 'prev_ok' else 0)
-                if key not in best or size < best[key][0]:
-                    best[key] = (size, {
-                        'key': key,
-                        'what': '%s; %s pipeline, method %s, injected: %s; observed %s, exception: %s'
-                                % (bad, pipe, CONFIGS[c['config']]['method'], json.dumps(c['faults']), describe(w), r.get('error')),
-                        'input': {'command': 'run_multiome_tagging_cmd(<copy of /repo/data/%s> -method %s%s -o out.bam)'
-                                  % ('chic_test_region.bam' if CONFIGS[c['config']]['bam'] == 'chic' else 'mini_nla_test.bam (first records)',
-                                     CONFIGS[c['config']]['method'], ' --multiprocess -tagthreads 2' if CONFIGS[c['config']]['mp'] else ''),
-                                  'case': c},
-                        'impl': {'world': describe(w), 'status_text': r.get('status_text'), 'raised': r['raised'], 'error': r.get('error'),
-                                 'records_in_output': r.get('n_records')},
-                        'expected': 'status != "Reached end. All ok!" unless the output exists, is complete, sorted and indexed'})
+                pipe = 'cluster' if CONFIGS[c['config']].get('noref') else ('multiprocess' if CONFIGS[c['config']]['mp'] else 'single')
+                key = '%s:%s:%s' % (kind, pipe, pts)
+                size = len(c['faults']) * 1000 + sum(f.get('after', 0) + f.get('at', 0) for f in c['faults']) + (500 if c.get('pre') == 'prev_ok' else 0)
+                opts = ' --multiprocess -tagthreads 2' if CONFIGS[c['config']]['mp'] else ''
+                opts += ''.join(' ' + x for x in CONFIGS[c['config']].get('extra', []))
+                wit = {'key': key,
+                       'what': '%s; %s pipeline, method %s, injected: %s; observed %s, blacklisted regions in header: %s, exception: %s'
+                               % (bad, pipe, CONFIGS[c['config']]['method'], json.dumps(c['faults']), describe(w), r.get('rep'), r.get('error')),
+                       'input': {'command': 'run_multiome_tagging_cmd(<copy of /repo/data/%s> -method %s%s -o out.bam)'
+                                 % ('chic_test_region.bam' if CONFIGS[c['config']]['bam'] == 'chic' else 'mini_nla_test.bam (first records)',
+                                    CONFIGS[c['config']]['method'], opts),
+                                 'case': c},
+                       'impl': {'world': describe(w), 'status_text': r.get('status_text'), 'raised': r['raised'], 'error': r.get('error'),
+                                'records_in_output': r.get('n_records'), 'segments': r.get('segments'), 'workers': r.get('wjobs')},
+                       'expected': 'status != "Reached end. All ok!" unless the output exists, is sorted and indexed and holds every '
+                                   'record except those of tasks reported as timed out (blacklisted in the header)'}
+            if key not in best or size < best[key][0]:
+                best[key] = (size, wit)
         for k in sorted(best, key=lambda k: best[k][0]):
             self.witnesses.append(best[k][1])
 
     def replay(self, data):
         w = data.get('witness')
         print(json.dumps(w or data.get('no_longer_checks'), indent=1, default=str)[:4000])
-        if w and isinstance(w.get('input'), dict) and 'case' in w['input']:
-            c = w['input']['case']
-            r = fw.run_impl('impl_c20.py', {'configs': CONFIGS, 'cases': [c], 'small_n': 60})
-            o = r['cases'][0]
-            print('replayed on %s: %s raised=%s error=%s' % (fw.REPO, describe(o['world']), o['raised'], o.get('error')))
-            bad = (not inv_py(o['world'])) or (o['raised'] and o['world'][0] == 3 and c.get('pre') != 'prev_ok')
-            print('VIOLATION reproduced' if bad else 'not reproduced on this tree')
+        if w and isinstance(w.get('input'), dict) and ('case' in w['input'] or 'wcase' in w['input']):
+            self.tier = 'quick'
+            self.probe(60)
+            if 'case' in w['input']:
+                c = w['input']['case']
+                r = fw.run_impl('impl_c20.py', {'configs': self.configs(), 'cases': [c], 'small_n': 60})
+                o = r['cases'][0]
+                print('replayed on %s: %s reported=%s raised=%s error=%s' % (fw.REPO, describe(o['world']), o.get('rep'), o['raised'], o.get('error')))
+                bad = self.judge(c, o) if 'world' in o else None
+            else:
+                c = w['input']['wcase']
+                r = fw.run_impl('impl_c20.py', {'configs': self.configs(), 'cases': [], 'wcases': [c], 'small_n': 60})
+                o = r['wcases'][0]
+                print('replayed on %s: %r' % (fw.REPO, {k: o.get(k) for k in ('ret', 'world', 'rep', 'raised', 'error', 'tasks')}))
+                bad = self.judge_worker(c, o) if 'world' in o else None
+            print('VIOLATION reproduced: %s' % bad[1] if bad else 'not reproduced on this tree')
             return 1 if bad else 0
         return self.run()
